@@ -61,7 +61,14 @@ const (
 	tNil     gt = "nil"
 	tUnit    gt = "Unit"
 	tKeys    gt = "List String"
+	tGoVal   gt = "GoVal"
+	tVer     gt = "Sv.Version"
+	tWorld   gt = "W"
 )
+
+// opsProfile: the translation of the Operation implementations (one operand type, strings are data, the receiver of a
+// method is never used as a value: the threaded `recv` is the log of Stringer calls)
+var opsProfile bool
 
 func (t gt) lean() string {
 	s := string(t)
@@ -161,6 +168,10 @@ func zeroOf(t gt) string {
 		return "0"
 	case tStack:
 		return "{ items := [] }"
+	case tFloat:
+		return "(F64.ofInt 0)"
+	case tVer:
+		return "Go.verZero"
 	}
 	return ""
 }
@@ -178,7 +189,8 @@ type fnInfo struct {
 	decl    *ast.FuncDecl
 	recvT   gt   // "" for plain functions
 	params  []gt // types of p0…
-	result  gt   // tUnit when none
+	result  gt   // tUnit when none; the product type when there are several
+	results []gt // the components when there are several results
 	mutates bool // assigns through the receiver
 	panics  bool // can panic
 	visit   bool // an arm of an accept function
@@ -197,11 +209,23 @@ type translator struct {
 	deferred [][]ast.Stmt
 	pre      []string
 	notes    []string
+	bindName string // variable bound by the type switch being translated (operands: typed per branch)
+	bindSubj string
 }
 
 func (tr *translator) fresh() string { tr.tmp++; return fmt.Sprintf("t%d", tr.tmp) }
 
 func goTypeToGt(s string, ctx string) gt {
+	if opsProfile {
+		switch s {
+		case "any", "Operand":
+			return tGoVal
+		case "string":
+			return tBytes
+		case "semver.Version":
+			return tVer
+		}
+	}
 	switch s {
 	case "bool":
 		return tBool
@@ -257,6 +281,25 @@ func (tr *translator) calleeKey(owner string, call *ast.CallExpr) (key string, r
 			return f.Name, nil
 		}
 	case *ast.SelectorExpr:
+		if opsProfile {
+			// recv.m(...)  or  (&T{}).m(...)
+			if id, ok := f.X.(*ast.Ident); ok && id.Name == "recv" {
+				if _, ok := tr.fns[owner+"."+f.Sel.Name]; ok {
+					return owner + "." + f.Sel.Name, nil
+				}
+			}
+			if pe, ok := f.X.(*ast.ParenExpr); ok {
+				if ue, ok := pe.X.(*ast.UnaryExpr); ok && ue.Op == token.AND {
+					if cl, ok := ue.X.(*ast.CompositeLit); ok && len(cl.Elts) == 0 {
+						k := tr.render(cl.Type) + "." + f.Sel.Name
+						if _, ok := tr.fns[k]; ok {
+							return k, nil
+						}
+					}
+				}
+			}
+			return "", nil
+		}
 		// recv.m(...)  or  recv.stack.m(...)
 		if id, ok := f.X.(*ast.Ident); ok && id.Name == "recv" {
 			k := owner + "." + f.Sel.Name
@@ -282,6 +325,31 @@ func isAcceptCall(call *ast.CallExpr) bool {
 }
 
 func (tr *translator) analyse() {
+	if opsProfile {
+		for changed := true; changed; {
+			changed = false
+			for _, fi := range tr.fns {
+				owner := recvTypeName(fi.decl, tr.render)
+				reach := fi.mutates
+				ast.Inspect(fi.decl.Body, func(n ast.Node) bool {
+					if c, ok := n.(*ast.CallExpr); ok {
+						if se, ok := c.Fun.(*ast.SelectorExpr); ok && se.Sel.Name == "String" && len(c.Args) == 0 {
+							reach = true
+						}
+						if k, _ := tr.calleeKey(owner, c); k != "" && tr.fns[k].mutates {
+							reach = true
+						}
+					}
+					return true
+				})
+				if reach != fi.mutates {
+					fi.mutates, fi.panics = reach, reach
+					changed = true
+				}
+			}
+		}
+		return
+	}
 	for changed := true; changed; {
 		changed = false
 		for _, fi := range tr.fns {
@@ -430,6 +498,9 @@ func (tr *translator) assignedOuter(list []ast.Stmt) []string {
 				if isAcceptCall(x) {
 					set["recv"] = true
 				}
+				if se, ok := x.Fun.(*ast.SelectorExpr); ok && opsProfile && se.Sel.Name == "String" && len(x.Args) == 0 {
+					set["recv"] = true
+				}
 				if id, ok := x.Fun.(*ast.Ident); ok && tr.vars[id.Name] == tMeth {
 					set["recv"] = true
 				}
@@ -456,6 +527,22 @@ func (tr *translator) assignedOuter(list []ast.Stmt) []string {
 func (tr *translator) canPanic(list []ast.Stmt) bool {
 	owner := recvTypeName(tr.cur.decl, tr.render)
 	pan := false
+	if opsProfile {
+		for _, s := range list {
+			ast.Inspect(s, func(n ast.Node) bool {
+				if c, ok := n.(*ast.CallExpr); ok {
+					if se, ok := c.Fun.(*ast.SelectorExpr); ok && se.Sel.Name == "String" && len(c.Args) == 0 {
+						pan = true
+					}
+					if k, _ := tr.calleeKey(owner, c); k != "" && tr.fns[k].panics {
+						pan = true
+					}
+				}
+				return true
+			})
+		}
+		return pan
+	}
 	for _, s := range list {
 		ast.Inspect(s, func(n ast.Node) bool {
 			switch x := n.(type) {
@@ -525,6 +612,9 @@ func (tr *translator) tupleType(vs []string) string {
 }
 
 func (tr *translator) monName() string {
+	if opsProfile {
+		return "OM"
+	}
 	if tr.cur.recvT == tJ {
 		return "VM"
 	}
@@ -619,6 +709,20 @@ func (tr *translator) coerce(term string, from, to gt) string {
 		return "(some " + term + ")"
 	case from == tText && to == tBytes:
 		return "(bytesOf " + term + ")"
+	case from == tInt && to == tFloat && opsProfile:
+		if _, err := strconv.Atoi(term); err == nil {
+			return "(F64.ofInt " + term + ")" // an untyped constant
+		}
+	case from == tInt && to == tGoVal:
+		return "(GoVal.int " + term + ")"
+	case from == tFloat && to == tGoVal:
+		return "(GoVal.float " + term + ")"
+	case from == tBytes && to == tGoVal:
+		return "(GoVal.str " + term + ")"
+	case from == tBool && to == tGoVal:
+		return "(GoVal.bool " + term + ")"
+	case from == tGErr && to == tErr:
+		return "(some " + term + ")"
 	}
 	fail("no conversion from %s to %s (%s)", from, to, term)
 	return ""
@@ -701,6 +805,14 @@ func (tr *translator) expr0(e ast.Expr, want gt) (string, gt) {
 		}
 		if c, ok := tr.consts[x.Name]; ok {
 			return c, tKind
+		}
+		if opsProfile {
+			switch x.Name {
+			case "ErrInvalidOperation":
+				return "(some (GErr.op OpErr.invalidOperation))", tErr
+			case "ErrEvalOperandMissing":
+				return "(some (GErr.op OpErr.missing))", tErr
+			}
 		}
 		fail("unknown identifier %s", x.Name)
 	case *ast.BasicLit:
@@ -900,6 +1012,8 @@ func (tr *translator) binary(x *ast.BinaryExpr) (string, gt) {
 				return wrap("(Go.isNilV " + a + ")")
 			case at == tROp:
 				return wrap("(Go.isNilR " + a + ")")
+			case at == tGoVal:
+				return wrap("(Go.isNilG " + a + ")")
 			case at == tErr || at == tRet || at == tOper || at == tMeth || isOpt(at):
 				if neg {
 					return a + ".isSome", tBool
@@ -910,15 +1024,31 @@ func (tr *translator) binary(x *ast.BinaryExpr) (string, gt) {
 		}
 		a, at := tr.expr(x.X, "")
 		b, bt := tr.expr(x.Y, at)
-		if at != bt || !(at == tText || at == tKind || at == tInt || at == tBool) {
+		if at == tFloat && bt == tFloat {
+			if neg {
+				return "(F64.ne " + a + " " + b + ")", tBool
+			}
+			return "(F64.eq " + a + " " + b + ")", tBool
+		}
+		if at != bt || !(at == tText || at == tKind || at == tInt || at == tBool || at == tBytes) {
 			fail("comparison of %s and %s", at, bt)
 		}
 		return wrap("(" + a + " == " + b + ")")
 	case token.GTR, token.LSS, token.GEQ, token.LEQ:
-		a, at := tr.expr(x.X, tInt)
-		b, _ := tr.expr(x.Y, tInt)
-		_ = at
-		return "(decide (" + a + " " + x.Op.String() + " " + b + "))", tBool
+		a, at := tr.expr(x.X, "")
+		b, _ := tr.expr(x.Y, at)
+		switch at {
+		case tInt:
+			return "(decide (" + a + " " + x.Op.String() + " " + b + "))", tBool
+		case tFloat:
+			fn := map[token.Token]string{token.GTR: "F64.gt", token.LSS: "F64.lt", token.GEQ: "F64.ge", token.LEQ: "F64.le"}[x.Op]
+			return "(" + fn + " " + a + " " + b + ")", tBool
+		case tBytes:
+			fn := map[token.Token]string{token.GTR: "Go.strGt", token.LSS: "Go.strLt", token.GEQ: "Go.strGe", token.LEQ: "Go.strLe"}[x.Op]
+			return "(" + fn + " " + a + " " + b + ")", tBool
+		}
+		fail("ordered comparison of %s", at)
+		return "", ""
 	case token.SUB, token.ADD:
 		a, _ := tr.expr(x.X, tInt)
 		b, _ := tr.expr(x.Y, tInt)
@@ -963,7 +1093,39 @@ func (tr *translator) call(x *ast.CallExpr, want gt) (string, gt) {
 		}
 		fail("make form")
 	case "int", "int64":
+		if opsProfile {
+			a, at := tr.expr(x.Args[0], "")
+			if at == tFloat {
+				return "(Go.intOfFloat " + a + ")", tInt
+			}
+			if at == tInt {
+				return a, tInt
+			}
+			fail("int(%s)", at)
+		}
 		return tr.expr(x.Args[0], tInt)
+	case "float64":
+		a, at := tr.expr(x.Args[0], "")
+		if at == tInt {
+			return "(F64.ofInt " + a + ")", tFloat
+		}
+		if at == tFloat {
+			return a, tFloat
+		}
+		fail("float64(%s)", at)
+	case "newErrInvalidOperand":
+		for _, a := range x.Args {
+			tr.pureOperandArg(a)
+		}
+		return "(GErr.op OpErr.invalidOperand)", tGErr
+	case "strings.ToLower":
+		a, _ := tr.expr(x.Args[0], tBytes)
+		return "(lower " + a + ")", tBytes
+	case "strings.Contains", "strings.HasPrefix", "strings.HasSuffix":
+		a, _ := tr.expr(x.Args[0], tBytes)
+		b, _ := tr.expr(x.Args[1], tBytes)
+		fn := map[string]string{"strings.Contains": "Go.contains", "strings.HasPrefix": "Go.hasPrefix", "strings.HasSuffix": "Go.hasSuffix"}[fun]
+		return "(" + fn + " " + a + " " + b + ")", tBool
 	case "newNestedError":
 		a, _ := tr.expr(x.Args[0], tErr)
 		m, ok := lit(x.Args[1])
@@ -1046,6 +1208,24 @@ func (tr *translator) call(x *ast.CallExpr, want gt) (string, gt) {
 			fail("%s on %s", se.Sel.Name, at)
 		}
 	}
+	if opsProfile && isSel && len(x.Args) <= 1 {
+		if id, ok := se.X.(*ast.Ident); ok {
+			switch vt := tr.vars[id.Name]; {
+			case vt == tGoVal && se.Sel.Name == "String" && len(x.Args) == 0:
+				if !tr.cur.mutates {
+					fail("String() in a function not marked as reaching it")
+				}
+				t := tr.fresh()
+				tr.pre = append(tr.pre, "match Go.callString "+id.Name+" recv with\n"+tr.errArm()+"| .ok ("+t+", recv) =>\n")
+				return t, tBytes
+			case vt == tVer && len(x.Args) == 1:
+				if fn, ok := map[string]string{"EQ": "Go.verEQ", "NE": "Go.verNE", "GT": "Go.verGT", "LT": "Go.verLT", "GE": "Go.verGE", "LE": "Go.verLE"}[se.Sel.Name]; ok {
+					b, _ := tr.expr(x.Args[0], tVer)
+					return "(" + fn + " " + id.Name + " " + b + ")", tBool
+				}
+			}
+		}
+	}
 	terms, types := tr.callN(x, owner, fun)
 	if len(terms) != 1 {
 		fail("call %s used as a single value has %d results", fun, len(terms))
@@ -1072,6 +1252,11 @@ func (tr *translator) callN(x *ast.CallExpr, owner, fun string) ([]string, []gt)
 		v, e := tr.fresh(), tr.fresh()
 		tr.pre = append(tr.pre, "let ("+v+", "+e+") := Go.ParseInt "+a+"\n")
 		return []string{v, e}, []gt{tInt, tErr}
+	case "semver.Make":
+		a, _ := tr.expr(x.Args[0], tBytes)
+		v, e := tr.fresh(), tr.fresh()
+		tr.pre = append(tr.pre, "let ("+v+", "+e+") := Go.semverMake "+a+"\n")
+		return []string{v, e}, []gt{tVer, tErr}
 	case "strconv.ParseFloat":
 		if len(x.Args) != 2 || tr.render(x.Args[1]) == "32" {
 			fail("ParseFloat with 32 bits")
@@ -1103,11 +1288,16 @@ func (tr *translator) callN(x *ast.CallExpr, owner, fun string) ([]string, []gt)
 		fail("arity of %s", key)
 	}
 	callTxt := fi.lean
-	if fi.lean == "J_Visit" {
+	if fi.lean == "J_Visit" || opsProfile {
 		callTxt += " lower"
 	}
 	recvTerm := ""
-	if recvExpr != nil {
+	if opsProfile {
+		if fi.mutates {
+			recvTerm = "recv"
+			callTxt += " recv"
+		}
+	} else if recvExpr != nil {
 		recvTerm = tr.render(recvExpr) // recv or recv.stack
 		callTxt += " " + recvTerm
 	}
@@ -1118,9 +1308,19 @@ func (tr *translator) callN(x *ast.CallExpr, owner, fun string) ([]string, []gt)
 	if fi.panics && fi.recvT != tJ && tr.cur.recvT == tJ {
 		callTxt = "Go.lift recv (" + callTxt + ")"
 	}
+	if opsProfile && fi.mutates && !tr.cur.mutates {
+		fail("a function that cannot reach String() calls one that can")
+	}
 	var res []string
 	var pat []string
-	if fi.result != tUnit {
+	resTypes := []gt{fi.result}
+	if len(fi.results) > 1 {
+		resTypes = fi.results
+		for range fi.results {
+			res = append(res, tr.fresh())
+		}
+		pat = append(pat, "("+strings.Join(res, ", ")+")")
+	} else if fi.result != tUnit {
 		r := tr.fresh()
 		res = append(res, r)
 		pat = append(pat, r)
@@ -1138,7 +1338,7 @@ func (tr *translator) callN(x *ast.CallExpr, owner, fun string) ([]string, []gt)
 	switch {
 	case fi.panics:
 		tr.pre = append(tr.pre, "match "+callTxt+" with\n"+tr.errArm()+"| .ok "+tuple(pat)+" =>\n"+upd)
-	case fi.mutates:
+	case fi.mutates || len(res) > 1:
 		tr.pre = append(tr.pre, "let "+tuple(pat)+" := "+callTxt+"\n"+upd)
 	default:
 		if fi.result == tUnit {
@@ -1149,7 +1349,7 @@ func (tr *translator) callN(x *ast.CallExpr, owner, fun string) ([]string, []gt)
 	if fi.result == tUnit {
 		return nil, nil
 	}
-	return res, []gt{fi.result}
+	return res, resTypes
 }
 
 // ---------------------------------------------------------------------------------------------------------------
@@ -1202,9 +1402,10 @@ func (tr *translator) doReturn(val string, c ctl) string {
 }
 
 type branch struct {
-	cond ast.Expr // nil: else / default
-	pat  string   // for match chains
-	body []ast.Stmt
+	cond  ast.Expr // nil: else / default
+	pat   string   // for match chains
+	body  []ast.Stmt
+	bindT gt // type of the variable a type switch binds in this branch ("" = that of the subject)
 }
 
 func (tr *translator) stmts(list []ast.Stmt, c ctl) string {
@@ -1225,8 +1426,31 @@ func (tr *translator) stmts(list []ast.Stmt, c ctl) string {
 		case 0:
 			return tr.doReturn("", c)
 		case 1:
+			if len(tr.cur.results) > 1 {
+				// return f(...) of a function with the same results
+				call, ok := x.Results[0].(*ast.CallExpr)
+				if !ok {
+					fail("return of one expression from a function with several results")
+				}
+				terms, types := tr.callN(call, recvTypeName(tr.cur.decl, tr.render), tr.render(call.Fun))
+				if len(terms) != len(tr.cur.results) {
+					fail("result count mismatch")
+				}
+				for i := range terms {
+					terms[i] = tr.coerce(terms[i], types[i], tr.cur.results[i])
+				}
+				return tr.flush() + tr.doReturn("("+strings.Join(terms, ", ")+")", c)
+			}
 			v, _ := tr.expr(x.Results[0], tr.cur.result)
 			return tr.flush() + tr.doReturn(v, c)
+		}
+		if len(x.Results) == len(tr.cur.results) {
+			var vs []string
+			for i, r := range x.Results {
+				v, _ := tr.expr(r, tr.cur.results[i])
+				vs = append(vs, v)
+			}
+			return tr.flush() + tr.doReturn("("+strings.Join(vs, ", ")+")", c)
 		}
 		fail("return of several values")
 	case *ast.DeclStmt:
@@ -1296,6 +1520,44 @@ func (tr *translator) stmts(list []ast.Stmt, c ctl) string {
 		return cont()
 	case *ast.AssignStmt:
 		return tr.assign(x) + cont()
+	case *ast.RangeStmt:
+		if !opsProfile || x.Tok != token.DEFINE || x.Value == nil {
+			fail("range form")
+		}
+		if k, ok := x.Key.(*ast.Ident); !ok || k.Name != "_" {
+			fail("range with an index variable")
+		}
+		v, ok := x.Value.(*ast.Ident)
+		if !ok {
+			fail("range value")
+		}
+		xs, xt := tr.expr(x.X, "")
+		el := map[gt]gt{tInts: tInt, tFloats: tFloat, tStrs: tBytes}[xt]
+		if el == "" {
+			fail("range over %s", xt)
+		}
+		pre := tr.flush()
+		for _, a := range tr.assignedOuter(x.Body.List) {
+			if a != "recv" {
+				fail("a loop body that assigns the outer variable %s", a)
+			}
+		}
+		sv := map[string]gt{}
+		for k2, t2 := range tr.vars {
+			sv[k2] = t2
+		}
+		tr.vars[v.Name] = el
+		r := tr.fresh()
+		var out string
+		if tr.mon() && tr.canPanic(x.Body.List) {
+			b := tr.stmts(x.Body.List, ctl{retRaw: func(t string) string { return ".ok (some " + t + ", recv)" }, tail: func() string { return ".ok (none, recv)" }})
+			out = pre + "match Go.forRangeM " + xs + " (fun " + v.Name + " recv => (" + b + ")) recv with\n" + tr.errArm() + "| .ok (some " + r + ", _) => " + c.retRaw(r) + "\n| .ok (none, recv) =>\n"
+		} else {
+			b := tr.stmts(x.Body.List, ctl{retRaw: func(t string) string { return "some " + t }, tail: func() string { return "none" }})
+			out = pre + "match Go.forRange " + xs + " (fun " + v.Name + " => (" + b + ")) with\n| some " + r + " => " + c.retRaw(r) + "\n| none =>\n"
+		}
+		tr.vars = sv
+		return out + cont()
 	case *ast.IfStmt:
 		if x.Init != nil {
 			y := *x
@@ -1405,6 +1667,23 @@ func (tr *translator) stmts(list []ast.Stmt, c ctl) string {
 					fail("case %s of a type switch on an error", tn)
 				}
 				brs = append(brs, branch{pat: p, body: cc.Body})
+			case tGoVal:
+				ctor, ok := map[string][2]string{"int": {"GoVal.int", string(tInt)}, "int32": {"GoVal.int32", string(tInt)}, "int64": {"GoVal.int64", string(tInt)}, "float64": {"GoVal.float", string(tFloat)},
+					"string": {"GoVal.str", string(tBytes)}, "bool": {"GoVal.bool", string(tBool)}, "fmt.Stringer": {"GoVal.stringer", ""}}[tn]
+				if !ok {
+					fail("case %s of a type switch on an operand", tn)
+				}
+				br := branch{body: cc.Body}
+				if ctor[1] == "" {
+					br.pat = ctor[0] + " _ _"
+					br.bindT = tGoVal
+				} else if bind != "" && bind != "unused" {
+					br.pat = ctor[0] + " " + bind
+					br.bindT = gt(ctor[1])
+				} else {
+					br.pat = ctor[0] + " _"
+				}
+				brs = append(brs, br)
 			case tQuery:
 				p, ok := map[string]string{"*LogicalExpContext": ".logicalExp _ _ _", "*CompareExpContext": ".compareExp _ _ _", "*ParenExpContext": ".parenExp _ _", "*PresentExpContext": ".presentExp _"}[tn]
 				if !ok {
@@ -1418,7 +1697,11 @@ func (tr *translator) stmts(list []ast.Stmt, c ctl) string {
 		}
 		if bind != "" && bind != "unused" {
 			tr.vars[bind] = tt
-			pre += "let " + bind + " := " + tag + "\n"
+			if tt == tGoVal {
+				tr.bindName, tr.bindSubj = bind, tag
+			} else {
+				pre += "let " + bind + " := " + tag + "\n"
+			}
 		}
 		if tt == tQuery && len(covered) == 4 {
 			// every alternative of `query` has its case: the default branch is dead for trees of the parser
@@ -1470,6 +1753,20 @@ func (tr *translator) chain(matchOn string, brs []branch, rest []ast.Stmt, c ctl
 		}
 		return pre + b.String()
 	}
+	bindName, bindSubj := tr.bindName, tr.bindSubj
+	tr.bindName, tr.bindSubj = "", ""
+	body := func(br branch, list []ast.Stmt, cc ctl) string {
+		pfx := ""
+		if matchOn != "" && bindName != "" {
+			if br.bindT != "" && br.bindT != tGoVal {
+				tr.vars[bindName] = br.bindT
+			} else {
+				tr.vars[bindName] = tGoVal
+				pfx = "let " + bindName + " := " + bindSubj + "\n"
+			}
+		}
+		return pfx + tr.stmts(list, cc)
+	}
 	nAlways, nContain := 0, 0
 	for _, br := range brs {
 		if alwaysReturns(br.body) {
@@ -1492,7 +1789,7 @@ func (tr *translator) chain(matchOn string, brs []branch, rest []ast.Stmt, c ctl
 	case nAlways == len(brs):
 		for i, br := range brs {
 			sv := snapshot()
-			bodies[i] = tr.stmts(br.body, sub)
+			bodies[i] = body(br, br.body, sub)
 			tr.vars = sv
 		}
 		return emit(bodies)
@@ -1500,11 +1797,11 @@ func (tr *translator) chain(matchOn string, brs []branch, rest []ast.Stmt, c ctl
 		// every branch but the last returns: the last one continues with the rest
 		for i, br := range brs[:len(brs)-1] {
 			sv := snapshot()
-			bodies[i] = tr.stmts(br.body, sub)
+			bodies[i] = body(br, br.body, sub)
 			tr.vars = sv
 			_ = i
 		}
-		bodies[len(brs)-1] = tr.stmts(append(append([]ast.Stmt{}, last.body...), rest...), ctl{retRaw: c.retRaw, tail: c.tail, top: c.top})
+		bodies[len(brs)-1] = body(last, append(append([]ast.Stmt{}, last.body...), rest...), ctl{retRaw: c.retRaw, tail: c.tail, top: c.top})
 		return emit(bodies)
 	}
 	// the variables the branches may change
@@ -1524,14 +1821,14 @@ func (tr *translator) chain(matchOn string, brs []branch, rest []ast.Stmt, c ctl
 	if nContain == 0 {
 		for i, br := range brs {
 			sv := snapshot()
-			bodies[i] = tr.stmts(br.body, ctl{retRaw: sub.retRaw, tail: func() string { return wrapOK(tuple(vs)) }})
+			bodies[i] = body(br, br.body, ctl{retRaw: sub.retRaw, tail: func() string { return wrapOK(tuple(vs)) }})
 			tr.vars = sv
 		}
-		body := emit(bodies)
+		bodyTxt := emit(bodies)
 		if mon {
-			return "match ((" + body + ") : " + tr.monName() + " " + tr.tupleType(vs) + ") with\n" + tr.errArm() + "| .ok " + tuple(vs) + " =>\n" + contTxt()
+			return "match ((" + bodyTxt + ") : " + tr.monName() + " " + tr.tupleType(vs) + ") with\n" + tr.errArm() + "| .ok " + tuple(vs) + " =>\n" + contTxt()
 		}
-		return "let " + tuple(vs) + " := (" + body + ")\n" + contTxt()
+		return "let " + tuple(vs) + " := (" + bodyTxt + ")\n" + contTxt()
 	}
 	// some paths return, others fall through
 	mon = tr.mon()
@@ -1543,15 +1840,15 @@ func (tr *translator) chain(matchOn string, brs []branch, rest []ast.Stmt, c ctl
 	}
 	for i, br := range brs {
 		sv := snapshot()
-		bodies[i] = tr.stmts(br.body, ctl{retRaw: func(t string) string { return wrapOK("(Sum.inl " + t + ")") }, tail: func() string { return wrapOK("(Sum.inr " + tuple(vs) + ")") }})
+		bodies[i] = body(br, br.body, ctl{retRaw: func(t string) string { return wrapOK("(Sum.inl " + t + ")") }, tail: func() string { return wrapOK("(Sum.inr " + tuple(vs) + ")") }})
 		tr.vars = sv
 	}
-	body := emit(bodies)
+	bodyTxt := emit(bodies)
 	r := tr.fresh()
 	if mon {
-		return "match ((" + body + ") : " + tr.monName() + " (Sum " + tr.plainResult() + " " + tr.tupleType(vs) + ")) with\n" + tr.errArm() + "| .ok (Sum.inl " + r + ") => " + c.retRaw(r) + "\n| .ok (Sum.inr " + tuple(vs) + ") =>\n" + contTxt()
+		return "match ((" + bodyTxt + ") : " + tr.monName() + " (Sum " + tr.plainResult() + " " + tr.tupleType(vs) + ")) with\n" + tr.errArm() + "| .ok (Sum.inl " + r + ") => " + c.retRaw(r) + "\n| .ok (Sum.inr " + tuple(vs) + ") =>\n" + contTxt()
 	}
-	return "match ((" + body + ") : Sum " + tr.plainResult() + " " + tr.tupleType(vs) + ") with\n| Sum.inl " + r + " => " + c.retRaw(r) + "\n| Sum.inr " + tuple(vs) + " =>\n" + contTxt()
+	return "match ((" + bodyTxt + ") : Sum " + tr.plainResult() + " " + tr.tupleType(vs) + ") with\n| Sum.inl " + r + " => " + c.retRaw(r) + "\n| Sum.inr " + tuple(vs) + " =>\n" + contTxt()
 }
 
 func (tr *translator) assign(x *ast.AssignStmt) string {
@@ -1611,6 +1908,36 @@ func (tr *translator) assign(x *ast.AssignStmt) string {
 		pre := tr.flush()
 		return pre + bindTo(x.Lhs[0], term, t)
 	}
+	if len(x.Rhs) == 1 && len(x.Lhs) == 2 {
+		if ta, ok := x.Rhs[0].(*ast.TypeAssertExpr); ok && ta.Type != nil {
+			a, at := tr.expr(ta.X, "")
+			fn, vt := "", gt("")
+			if at == tGoVal {
+				switch tr.render(ta.Type) {
+				case "bool":
+					fn, vt = "Go.asBool", tBool
+				case "float64":
+					fn, vt = "Go.asFloat", tFloat
+				case "string":
+					fn, vt = "Go.asStr", tBytes
+				case "[]int":
+					fn, vt = "Go.asInts", tInts
+				case "[]float64":
+					fn, vt = "Go.asFloats", tFloats
+				case "[]string":
+					fn, vt = "Go.asStrs", tStrs
+				}
+			}
+			if fn == "" {
+				fail("comma-ok assertion %s on %s", tr.render(ta.Type), at)
+			}
+			v, okv := tr.fresh(), tr.fresh()
+			out := tr.flush() + "let (" + v + ", " + okv + ") := " + fn + " " + a + "\n"
+			out += bindTo(x.Lhs[0], v, vt)
+			out += bindTo(x.Lhs[1], okv, tBool)
+			return out
+		}
+	}
 	if len(x.Rhs) == 1 {
 		call, ok := x.Rhs[0].(*ast.CallExpr)
 		if !ok {
@@ -1648,6 +1975,9 @@ func (tr *translator) resultType(fi *fnInfo) string {
 		t = "(" + parts[0] + " × " + parts[1] + ")"
 	}
 	if fi.panics {
+		if opsProfile {
+			return "OM " + paren(t)
+		}
 		if fi.recvT == tJ {
 			return "VM " + paren(t)
 		}
@@ -1951,5 +2281,210 @@ func stubVisitor(status [][2]string) string {
 		}
 	}
 	b.WriteString("-/\nnamespace Rules.Gen\ndef translated : Bool := false\nend Rules.Gen\n")
+	return b.String()
+}
+
+// pureOperandArg: an argument that only ends up inside an error value (dropped from the model) must be a plain variable
+func (tr *translator) pureOperandArg(e ast.Expr) {
+	if _, ok := e.(*ast.Ident); !ok {
+		fail("argument of an error constructor is not a plain variable: %s", tr.render(e))
+	}
+}
+
+// ---------------------------------------------------------------------------------------------------------------
+// the Operation implementations (operation.go, *_operation.go) -> Generated/Ops.lean
+
+var opTypeOrder = []string{"NullOperation", "BoolOperation", "IntOperation", "FloatOperation", "StringOperation", "VersionOperation"}
+var opMethodOrder = []string{"EQ", "NE", "GT", "LT", "GE", "LE", "CO", "SW", "EW", "IN"}
+
+func genOps(fset *token.FileSet, decls map[string]*ast.FuncDecl, declFile map[string]string, embeds map[string][]string, render func(ast.Node) string) (string, [][2]string) {
+	opsProfile = true
+	defer func() { opsProfile = false }()
+	tr := &translator{fset: fset, fns: map[string]*fnInfo{}, consts: map[string]string{}, render: render}
+	isOp := map[string]bool{}
+	for _, t := range opTypeOrder {
+		isOp[t] = true
+	}
+	var status [][2]string
+	okAll := true
+	bad := func(k, why string) { status = append(status, [2]string{k, "unsupported: " + why}); okAll = false }
+	sel := map[string]bool{}
+	var work []string
+	for k, d := range decls {
+		if isOp[recvTypeName(d, render)] && d.Body != nil && strings.HasPrefix(declFile[k], "parser/") {
+			sel[k] = true
+			work = append(work, k)
+		}
+	}
+	libFuncs := map[string]bool{"newErrInvalidOperand": true}
+	for len(work) > 0 {
+		k := work[len(work)-1]
+		work = work[:len(work)-1]
+		ast.Inspect(decls[k].Body, func(n ast.Node) bool {
+			if c, ok := n.(*ast.CallExpr); ok {
+				if id, ok := c.Fun.(*ast.Ident); ok && !libFuncs[id.Name] && !sel[id.Name] {
+					if d, ok := decls[id.Name]; ok && d.Recv == nil && d.Body != nil && strings.HasPrefix(declFile[id.Name], "parser/") {
+						sel[id.Name] = true
+						work = append(work, id.Name)
+					}
+				}
+			}
+			return true
+		})
+	}
+	var keys []string
+	for k := range sel {
+		keys = append(keys, k)
+	}
+	sort.Strings(keys)
+	for _, k := range keys {
+		d := decls[k]
+		owner := recvTypeName(d, render)
+		fi := &fnInfo{key: k, decl: d, result: tUnit}
+		fi.lean = strings.ReplaceAll(k, ".", "_")
+		_ = owner
+		if d.Type.Params != nil {
+			for _, f := range d.Type.Params.List {
+				t := goTypeToGt(render(f.Type), "")
+				n := len(f.Names)
+				if n == 0 {
+					n = 1
+				}
+				for i := 0; i < n; i++ {
+					fi.params = append(fi.params, t)
+				}
+				if t == "" {
+					bad(k, "parameter type "+render(f.Type))
+				}
+			}
+		}
+		if d.Type.Results != nil {
+			for _, f := range d.Type.Results.List {
+				t := goTypeToGt(render(f.Type), "")
+				if t == "" {
+					bad(k, "result type "+render(f.Type))
+				}
+				n := len(f.Names)
+				if n == 0 {
+					n = 1
+				}
+				if len(f.Names) > 0 {
+					bad(k, "named results")
+				}
+				for i := 0; i < n; i++ {
+					fi.results = append(fi.results, t)
+				}
+			}
+			if len(fi.results) == 1 {
+				fi.result = fi.results[0]
+			} else if len(fi.results) > 1 {
+				var ps []string
+				for _, t := range fi.results {
+					ps = append(ps, paren(t.lean()))
+				}
+				fi.result = gt("(" + strings.Join(ps, " × ") + ")")
+			}
+		}
+		tr.fns[k] = fi
+	}
+	if !okAll {
+		return stubOps(status), status
+	}
+	tr.analyse()
+	for _, fi := range tr.fns {
+		if fi.mutates {
+			fi.recvT = tWorld
+		}
+	}
+	// dependency order
+	var order []*fnInfo
+	done := map[string]bool{}
+	var visit func(fi *fnInfo, depth int)
+	visit = func(fi *fnInfo, depth int) {
+		if done[fi.key] || depth > 60 {
+			return
+		}
+		done[fi.key] = true
+		owner := recvTypeName(fi.decl, render)
+		ast.Inspect(fi.decl.Body, func(n ast.Node) bool {
+			if c, ok := n.(*ast.CallExpr); ok {
+				if k, _ := tr.calleeKey(owner, c); k != "" {
+					visit(tr.fns[k], depth+1)
+				}
+			}
+			return true
+		})
+		order = append(order, fi)
+	}
+	for _, k := range keys {
+		visit(tr.fns[k], 0)
+	}
+	var b strings.Builder
+	b.WriteString("import RulesModel.Model.GoRTOps\n/-! GENERATED by /verif/extract (golean.go, profile ops) from /repo/parser/operation.go and *_operation.go — do not edit.\nEvery definition is the statement-by-statement translation of the Go function named in its comment. -/\nset_option linter.unusedVariables false\nnamespace Rules.GenOps\nopen Rules Rules.Go\n\ndef translated : Bool := true\n\n")
+	for _, fi := range order {
+		body, err := tr.body(fi)
+		if err != "" {
+			bad(fi.key, err)
+			continue
+		}
+		sig := "def " + fi.lean + " (lower : Bytes → Bytes)"
+		if fi.mutates {
+			sig += " (recv : W)"
+		}
+		for i, p := range fi.params {
+			sig += fmt.Sprintf(" (p%d : %s)", i, p.lean())
+		}
+		fmt.Fprintf(&b, "/-- `%s` -/\n%s : %s :=\n%s\n", fi.key, sig, tr.resultType(fi), body)
+		status = append(status, [2]string{fi.key, "translated"})
+	}
+	// dispatch: `currentOperation.<OP>` with Go's method promotion through the embedded struct
+	b.WriteString("/-- `currentOperation.<OP>(left, right)`: the method of the concrete type, or the one promoted from the struct it embeds -/\ndef dispatch (lower : Bytes → Bytes) (k : OpKind) (op : CmpOp) (l r : GoVal) (w : W) : OM ((Bool × Option GErr) × W) :=\n  match k, op with\n")
+	kindOf := map[string]string{"NullOperation": ".null", "BoolOperation": ".bool", "IntOperation": ".int", "FloatOperation": ".float", "StringOperation": ".string", "VersionOperation": ".version"}
+	var rows []string
+	for _, t := range opTypeOrder {
+		for _, m := range opMethodOrder {
+			owner := t
+			for depth := 0; depth < 4; depth++ {
+				if _, ok := tr.fns[owner+"."+m]; ok {
+					break
+				}
+				if e := embeds[owner]; len(e) == 1 {
+					owner = e[0]
+				} else {
+					owner = ""
+					break
+				}
+			}
+			fi := tr.fns[owner+"."+m]
+			if owner == "" || fi == nil || len(fi.params) != 2 || len(fi.results) != 2 {
+				bad(t+"."+m, "no such method")
+				continue
+			}
+			call := ".ok (" + fi.lean + " lower l r, w)"
+			if fi.mutates {
+				call = fi.lean + " lower w l r"
+			}
+			op := strings.TrimPrefix(cmpOps[m], "CmpOp")
+			fmt.Fprintf(&b, "  | %s, %s => %s\n", kindOf[t], op, call)
+			rows = append(rows, t+"."+m+":"+owner)
+		}
+	}
+	b.WriteString("\n/-- which declaration each (type, method) pair resolves to -/\ndef resolution : List String := " + leanStrs(rows) + "\n\nend Rules.GenOps\n")
+	sort.Slice(status, func(i, j int) bool { return status[i][0] < status[j][0] })
+	if !okAll {
+		return stubOps(status), status
+	}
+	return b.String(), status
+}
+
+func stubOps(status [][2]string) string {
+	var b strings.Builder
+	b.WriteString("/-! GENERATED by /verif/extract (golean.go, profile ops): the Operation implementations are outside the translated subset of Go.\n")
+	for _, s := range status {
+		if strings.HasPrefix(s[1], "unsupported") {
+			b.WriteString("  " + s[0] + ": " + strings.ReplaceAll(s[1], "-/", "- /") + "\n")
+		}
+	}
+	b.WriteString("-/\nnamespace Rules.GenOps\ndef translated : Bool := false\nend Rules.GenOps\n")
 	return b.String()
 }
